@@ -744,7 +744,12 @@ func Execute(spec *Spec) *Trace {
 		hooks.Store(r.names[gi], hs[gi])
 	}
 	defer func() {
-		for _, n := range r.names {
+		for gi, n := range r.names {
+			// the entry of an abandoned run stays: its scheduler parks for good at its next hook call instead of polling on
+			// in the background for the rest of the worker's life
+			if gi < len(hs) && hs[gi] != nil && atomic.LoadInt32(&hs[gi].abandon) == 1 {
+				continue
+			}
 			hooks.Delete(n)
 		}
 	}()
